@@ -263,7 +263,7 @@ def shrink(rows, cols, e, chunks):
 def replay(ctx, path):
     d = json.load(open(path))['replay']
     if 'chunks' not in d:
-        print(d); return 1
+        print(d); return None
     chunks = [c.encode('latin-1') if b else c for c, b in zip(d['chunks'], d['bytes'])]
     real, t = run_real(d['rows'], d['cols'], d['encoding'], chunks)
     print(real)
